@@ -234,6 +234,53 @@ def run_commtest_witness(ctx):
         ctx.broken.append({"kind": "witness-no-longer-replays", "what": "witness_commtest.cpp", "results": res})
 
 
+KEY_CONDVAR = "condvar-async-lock-pair-declared-independent"
+
+
+def run_condvar_witness(ctx):
+    """Replay of `condvar_async_lock_pair_counterexample` on the real implementation: witness_condvar.cpp.  The two recorded
+    paths differ ONLY by the order of the two adjacent CONDVAR_ASYNC_LOCK (actors 1 and 2, one condvar, two mutexes):
+    A's assertion fails when B's comes first, holds otherwise.  Then the reductions are run on the program: they must find
+    the failing execution."""
+    import subprocess
+    from vlib import core
+    w = ctx.build_harness("witness_condvar.cpp", flags=("-w",))
+    if not w:
+        return
+    env = dict(os.environ, **ctx.sg_env())
+    fail_path = "1;1;1;2;2;2;2;1;3;3;3;3;3;3;3;3;3;3;3;2;2;2;2;1;1;1;1;1"
+    pass_path = "1;1;1;2;2;2;1;2;3;3;3;3;3;3;3;3;3;3;3;1;1;1;1;1;2;2;2;2;2"
+
+    def replay(path):
+        p = subprocess.run([w, "--cfg=model-check/replay:" + path, "--log=root.thres:critical"], capture_output=True, text=True,
+                           timeout=60, env=env, cwd=ctx.work)
+        return "assert-fails" if "MC assertion failed" in (p.stdout + p.stderr) else "rc=%d" % p.returncode
+    a, b = replay(fail_path), replay(pass_path)
+    res = {"replay CAL(2);CAL(1)": a, "replay CAL(1);CAL(2)": b}
+    mc = os.path.join(core.SGBUILD, "bin", "simgrid-mc")
+    missed = []
+    for r in (["dpor"] if ctx.tier == "quick" else ["dpor", "sdpor", "odpor"]):
+        try:
+            rc = subprocess.run([mc, "--cfg=model-check/reduction:" + r, "--log=root.thres:critical", w], capture_output=True,
+                                text=True, timeout=240, env=env, cwd=ctx.work).returncode
+        except subprocess.TimeoutExpired:
+            rc = "timeout"
+        res["simgrid-mc reduction:" + r] = rc
+        if rc == 0:
+            missed.append(r)
+        ctx.cov["evaluations"] += 1
+    ctx.cov["condvar_witness"] = res
+    ctx.cov["evaluations"] += 2
+    if a == "assert-fails" and b != "assert-fails" and missed:
+        ctx.violation("CONDVAR_ASYNC_LOCK x CONDVAR_ASYNC_LOCK on one condition variable (two mutexes) is ALWAYS_INDEP but the waiters are "
+                      "queued in execution order: the replays that differ only by the order of these two adjacent transitions end "
+                      "differently (%s vs %s) and reductions %s finish with exit 0 although the failing execution exists" % (a, b, missed),
+                      {"program": "props/C39/witness_condvar.cpp", "replay_failing": fail_path, "replay_passing": pass_path,
+                       "results": res}, key=KEY_CONDVAR)
+    elif not (a == "assert-fails" and b != "assert-fails"):
+        ctx.broken.append({"kind": "witness-no-longer-replays", "what": "witness_condvar.cpp", "results": res})
+
+
 # Witness pairs of the repaired defects: the real dispatch_depends must answer "dependent" in both directions (and
 # "independent" on the control pairs).  A different answer is the old defect back: violation under its old key.
 REGRESSION = {
@@ -274,6 +321,7 @@ def run(ctx):
     if ctx.replay and "program" in json.load(open(ctx.replay))["case"]:
         run_barrier_witness(ctx)
         run_commtest_witness(ctx)
+        run_condvar_witness(ctx)
         return
     if ctx.replay:
         queries = [(json.load(open(ctx.replay))["case"]["query"], (None, None, False))]
@@ -330,6 +378,7 @@ def run(ctx):
     if not ctx.replay:
         run_barrier_witness(ctx)
         run_commtest_witness(ctx)
+        run_condvar_witness(ctx)
     ctx.cov["samples"] = out[:2] + out[len(corpus) + len(REGRESSION):len(corpus) + len(REGRESSION) + 4]
     if table:
         n_t = len(table["types"])
